@@ -59,6 +59,7 @@ type WScenario struct {
 type WGen struct {
 	Faults    bool
 	Replicas2 bool
+	ForceTwo  bool // always two replicas
 	Thorough  bool
 	ShortQuiet bool // cycle oracles only: no need to wait for convergence
 	// ReloadFault allows the "Prometheus reload fails" and "Prometheus stalled" faults. It is outside C06's list of
@@ -84,7 +85,7 @@ func GenWorld(tp *core.Tape, g WGen) *WScenario {
 	sc.Opt.MaxIdleTime = core.Pick(tp, "max_idle", time.Duration(0), 30*time.Second, 90*time.Second)
 	sc.Opt.DisableAlleviate = tp.Bool("disable_alleviate", 1, 6)
 	sc.Replicas = 1
-	if g.Replicas2 && tp.Bool("two_replicas", 1, 3) {
+	if g.Replicas2 && (g.ForceTwo || tp.Bool("two_replicas", 1, 3)) {
 		sc.Replicas = 2
 	}
 	for r := 0; r < sc.Replicas; r++ {
